@@ -20,7 +20,7 @@ import warnings
 
 import numpy as np
 
-from holopy.core.metadata import make_subset_data
+from holopy.core.metadata import dict_to_array, make_subset_data
 from holopy.core.utils import ensure_array, ensure_listlike, ensure_scalar
 from holopy.core.holopy_object import HoloPyObject
 from holopy.core.errors import raise_fitting_api_error
@@ -360,7 +360,7 @@ class Model(HoloPyObject):
         """
         Internal function taking pars as a list only
         """
-        noise_sd = self._find_noise(pars, data)
+        noise_sd = dict_to_array(data, self._find_noise(pars, data))
         N = data.size
         log_likelihood = ensure_scalar(
             -N/2 * np.log(2 * np.pi) -
